@@ -40,6 +40,10 @@ for e in edges:
                      ['for', 'i', 'in'] + E + ['..'] + lit(e - 1) + ['return', 'i'], ['some', 'i', 'in'] + E + ['..'] + E + ['satisfies', 'i', '>', '0'],
                      E + ['+', '1'], E + ['*'] + E, ['-', '('] + E + [')'], E + ['**', '2'], ['2', '**'] + E, ['1', 'in', '['] + E + ['..'] + lit(e + 1) + [']'],
                      ['@', '"P1D"', '*'] + E, ['@', '"P1M"', '*'] + E, ['@', '"2021-01-01"', '+', '@', '"P1D"', '*'] + E]
+for n in nul_strings:
+    edge_special += [['number', '('] + n + [',', '","', ',', '"."', ')'], ['number', '('] + n + [',', 'null', ',', 'null', ')'], ['number', '(', '"1"', ','] + n + [',', '"."', ')'],
+                     ['matches', '('] + n + [','] + n + [')'], ['replace', '('] + n + [','] + n + [','] + n + [')'], ['split', '('] + n + [','] + n + [')'],
+                     n + ['+'] + n, ['{'] + n + [':', '1', '}'], ['@'] + n, n + ['<'] + n, ['string length', '('] + n + [')'], ['contains', '('] + n + [','] + n + [')']]
 for d in offsets:
     T = ['time', '(', '10', ',', '0', ',', '0', ',', 'duration', '(', '"%s"' % d, ')', ')']
     edge_special += [T, T + ['='] + T, T + ['<'] + T, T + ['-'] + T, ['string', '('] + T + [')'], T + ['.', 'time offset'], T + ['.', 'timezone'],
@@ -195,4 +199,4 @@ Next == FALSE /\\ c' = c
 =============================================================================
 ''')
 import sys
-open(sys.argv[1] if len(sys.argv) > 1 else '/verif/spec/Gen_C05.tla', 'w').write(''.join(out))
+open(sys.argv[1] if len(sys.argv) > 1 else __import__('os').path.join(__import__('os').path.dirname(__import__('os').path.abspath(__file__)), '..', 'spec', 'Gen_C05.tla'), 'w').write(''.join(out))
